@@ -62,6 +62,27 @@ CHECKS = {
         "note": "exec_allows_no_decreases_clause on apply_fixpoint (termination not claimed); closure assumed total and state-independent.",
         "technique": "contract-based deductive verification (Verus) of mechanically extracted real code",
     },
+    "C12": {
+        "text": "Verus proves on the real transition_axioms (and everything below it down to asp::Program::predicates and Predicate::to_formula) that exactly the formulas forall X (hp(X) -> tp(X)) for the predicates occurring in either "
+                "program are emitted, and that each is true whenever H is included in T. The symbol-order chain and the static preamble are written by fmt code / are static text and are not decided.",
+        "design_ref": "DESIGN.md §5 C12",
+        "note": "symbol_order axioms and declarations exist only inside Display for Problem (fmt): not covered; preamble truth assumed; D6 for format!(\"X{i}\").",
+        "technique": "contract-based deductive verification (Verus) of mechanically extracted real code",
+    },
+    "C13": {
+        "text": "Verus proves on the real inductive_lemma that the base and step obligations it returns imply the inductive lemma in every interpretation (induction over the integers inside the verifier), using the proved contract of "
+                "Formula::substitute. Definition acceptance and lemma sequencing are not under contract, so the claim is partial.",
+        "design_ref": "DESIGN.md §5 C13",
+        "note": "substitute used through its C17 contract (proved in unit subst); definition(), GeneralLemma::try_from, from_specification and the sequencing loop not verified.",
+        "technique": "contract-based deductive verification (Verus) of mechanically extracted real code",
+    },
+    "C03": {
+        "text": "Partial: the gamma reduction (C05) and the completeness of the h-implies-t transition axioms over all predicates of both programs are proved on the real code; the routing of theories into axioms/conjectures per direction "
+                "in StrongEquivalenceTask::decompose is outside Verus' subset and not decided.",
+        "design_ref": "DESIGN.md §5 C03",
+        "note": "decompose routing/flags, Gamma for Theory, tau*/mu correctness not covered.",
+        "technique": "contract-based deductive verification (Verus) of mechanically extracted real code",
+    },
 }
 NOT_APPLICABLE = {
     "C01": "not yet built (planned: Verus unit `tau`)",
